@@ -31,7 +31,7 @@ def _mc_configs(ctx):
 
 
 def _simulate(ctx):
-    sim = tlc.run(ctx, "QuotaTree", "QuotaTree_sim.cfg", simulate={"num": ctx.pick(40, 600), "file": True},
+    sim = tlc.run(ctx, "QuotaTree", "QuotaTree_sim.cfg", simulate={"num": ctx.pick(40, 300), "file": True},
                   depth=ctx.pick(8, 10), seed=ctx.seed, workers=1, timeout=1200, name="sim")
     if sim.kind is not None and sim.kind != "invariant":
         raise InfraError("TLC simulation ended unexpectedly: %s" % sim.summary())
@@ -51,17 +51,26 @@ def run(ctx):
     wit_jobs = [(c, p) for c in ("drift-self", "drift-desc", "shadow") for p in wit_paths]
     from concurrent.futures import ThreadPoolExecutor
     Q._locked_subdir(ctx)
+    # VERIF_C36_ONLY=conformance: accelerator for negative controls (selftest mutations) on a busy machine: the
+    # design part (which does not depend on /repo) is skipped.  Such a run can only END IN A VIOLATION (exit 1) or in
+    # an infrastructure error (exit 2) -- it never yields a verdict of "held" (see the end of run()).
+    conformance_only = os.environ.get("VERIF_C36_ONLY") == "conformance"
     pool = ThreadPoolExecutor(max_workers=3)
-    f_mc = pool.submit(Q.run_model_checks, ctx, _mc_configs(ctx))
-    f_wit = pool.submit(Q.run_witness_searches, ctx, wit_jobs)
-    f_sim = pool.submit(_simulate, ctx)
+    if conformance_only:
+        f_mc = pool.submit(lambda: [])
+        f_wit = pool.submit(lambda: [])
+        f_sim = pool.submit(lambda: [])
+    else:
+        f_mc = pool.submit(Q.run_model_checks, ctx, _mc_configs(ctx))
+        f_wit = pool.submit(Q.run_witness_searches, ctx, wit_jobs)
+        f_sim = pool.submit(_simulate, ctx)
 
     # ---------------- 2. conformance: drive the real code (while TLC works on the design part)
     tdir = ctx.subdir("traces")
     files = {}
     stats = {}
     # 2a random traces inside the exhaustive bounds and beyond them
-    n_rand = ctx.pick(250, 6000)
+    n_rand = ctx.pick(250, 2500)
     common_env = {"VERIF_NCPU": 3}
     files["random"] = os.path.join(tdir, "random.ndjson")
     stats["random"] = Q.run_driver(ctx, binary, "random", files["random"], dict(common_env, VERIF_N=n_rand, VERIF_LEN=14,
@@ -69,15 +78,15 @@ def run(ctx):
                                    VERIF_MEMVALS="[0,1,1,2,2,3,3,4,4]", VERIF_THRVALS="[0,1,1,2,2,3,3,4,4]",
                                    VERIF_CNTVALS="[0,0,1,2]", VERIF_PCTVALS="[0,50,50,100,100]"))
     files["wide"] = os.path.join(tdir, "wide.ndjson")
-    stats["wide"] = Q.run_driver(ctx, binary, "random", files["wide"], dict(VERIF_NCPU=4, VERIF_N=ctx.pick(80, 2500),
+    stats["wide"] = Q.run_driver(ctx, binary, "random", files["wide"], dict(VERIF_NCPU=4, VERIF_N=ctx.pick(80, 800),
                                  VERIF_LEN=24, VERIF_MAXGROUPS=7, VERIF_MAXDEPTH=5, VERIF_MAXROOTS=2, VERIF_CORES=4,
                                  VERIF_MEMVALS="[1,2,3,5,8,13,21]", VERIF_THRVALS="[1,2,3,5,8,13]",
                                  VERIF_CNTVALS="[0,0,1,2,3,4]", VERIF_PCTVALS="[10,25,50,75,100]",
                                  VERIF_SEED=ctx.seed + 1000))
     # 2b enumerated: the complete one-step request domain from random reachable base forests
     files["enum"] = os.path.join(tdir, "enum.ndjson")
-    stats["enum"] = Q.run_driver(ctx, binary, "enum", files["enum"], dict(common_env, VERIF_N=ctx.pick(3, 40),
-                                 VERIF_LEN=8, VERIF_ENUM_BUDGET=ctx.pick(2500, 40000), VERIF_MAXGROUPS=4,
+    stats["enum"] = Q.run_driver(ctx, binary, "enum", files["enum"], dict(common_env, VERIF_N=ctx.pick(3, 12),
+                                 VERIF_LEN=8, VERIF_ENUM_BUDGET=ctx.pick(2500, 15000), VERIF_MAXGROUPS=4,
                                  VERIF_MAXDEPTH=3, VERIF_MAXROOTS=1, VERIF_MEMVALS="[0,2]", VERIF_THRVALS="[2]",
                                  VERIF_CNTVALS="[0,1,2]", VERIF_PCTVALS="[0,50,100]", VERIF_CORES=2))
     # the statement violations and refused-but-changed observations of these runs do not need TLC at all
@@ -117,7 +126,7 @@ def run(ctx):
                 ("UpdateDirect" if la["path"] == "direct" else "UpdateMerged")
             sim_actions[k] = sim_actions.get(k, 0) + 1
     missing = [a for a in ("NewGroup", "NewSubGroup", "UpdateDirect", "UpdateMerged") if not sim_actions.get(a)]
-    if missing:
+    if missing and not conformance_only:
         raise InfraError("vacuity guard: spec action(s) never taken in the TLC simulation: %s" % missing)
     cov["simulation(QuotaTree_sim.cfg)"] = sim_actions
     replay_cases = []
@@ -288,6 +297,11 @@ def run(ctx):
         "behaviours are followed up to the first forest violating the statement (the algorithm's shortcuts presuppose it)",
         "exhaustive only within the bounds of the cfgs; beyond them random sampling (wide: 7 groups, depth 5)",
     ]
+    if conformance_only:
+        if not violations:
+            raise InfraError("VERIF_C36_ONLY=conformance: no violation found, and this mode cannot give a verdict")
+        coverage["states"] = coverage["transitions"] = 1      # design part skipped (selftest accelerator)
+        notes.append("VERIF_C36_ONLY=conformance: design part skipped; only usable as a negative control")
     return Result(level="model_checking", coverage=coverage, assumptions=assumptions, violations=violations, notes=notes)
 
 
@@ -310,6 +324,11 @@ def _negative_binding_control(ctx, rows, tdir):
         p = os.path.join(tdir, "neg_%s.ndjson" % what)
         common.write_ndjson(p, bad)
         tv = tlc.validate_trace(ctx, "TraceQuotaTree", "TraceQuotaTree.cfg", p, timeout=600, name="neg_" + what)
+        if not tv["accepted"] and tv["stuck_line"] is not None and tv["stuck_line"] < i + 1:
+            # the REAL trace itself deviates from the spec before the corrupted line (reported as a violation by the
+            # main validation): the control is not applicable on this run
+            out[what] = "not applicable: the uncorrupted real trace is already rejected at line %d" % tv["stuck_line"]
+            continue
         if tv["accepted"] or tv["stuck_line"] != i + 1:
             raise InfraError("binding self-test failed: corrupted field %r at line %d was not rejected there (%s)"
                              % (what, i + 1, tv))
